@@ -898,7 +898,7 @@ func Run(o Options, prefix []int, body func()) *Result {
 	}
 	x.running = nil
 	for i := 0; i < x.ntimers; i++ {
-		if x.timers[i].active {
+		if x.timers[i].active && !x.timers[i].harness {
 			x.res.TimersLeft++
 		}
 	}
